@@ -71,8 +71,7 @@ class WHarness:
         self.step = 0
 
     def addr(self):
-        from dali.address import GearShort, DeviceShort
-        return GearShort(self.sa) if self.fam == "gear" else DeviceShort(self.sa)
+        return MI.make_addr(self.fam, self.sa, getattr(self, "aform", None))
 
     def execute(self, cmd):
         from dali import frame as F
@@ -104,6 +103,7 @@ def run_write(cfg, ch):
     row = M.by_name()[(cfg["bank"], cfg["name"])]
     cls = vals[(cfg["bank"], cfg["name"])]
     h = WHarness(cfg["fam"], cfg["bank"], cfg["lock"], cfg["variant"], row, ch, sa=cfg.get("sa"))
+    h.aform = cfg.get("aform")
     raw = bytes.fromhex(cfg["raw"])
     kw = dict(cfg.get("opts", {}))
     try:
@@ -270,13 +270,15 @@ def run_shard(shard):
         targets = [k for k in byname if M.writable(byname[k])]
         pick = [targets[0], targets[len(targets) // 2], targets[-1]]
         for sa in range(shard[1], shard[2]):
-            for fam in ("gear", "device"):
+            for fam, aform in (("gear", None), ("device", None), ("gear", "int"), ("gear", "subclass"), ("device", "subclass")):
+                if aform is not None and sa % 16 not in (0, 5, 15):
+                    continue                  # other spellings of the address: plain int (gear), instance of an application subclass
                 for key in pick:
                     row = byname[key]
                     w = M.width(row)
                     raw = bytes((0x21 + 5 * i) & 0x7F for i in range(w))
                     for lock in (0xFF, 0x55):
-                        cfg = dict(bank=key[0], name=key[1], raw=raw.hex(), fam=fam, lock=lock, variant="standard", opts={}, sa=sa)
+                        cfg = dict(bank=key[0], name=key[1], raw=raw.hex(), fam=fam, lock=lock, variant="standard", opts={}, sa=sa, aform=aform)
                         for ch, obs in explore(lambda c: run_write(cfg, c), bound=1 if lock == 0xFF else 0):
                             h, row_, kind, val, n = obs
                             r = judge(res, cfg, h, row, kind, val, n)
